@@ -1,5 +1,5 @@
 import Feox.Props.C02
-import Feox.Fmt.CrashedTxn
+import Feox.Fmt.Found
 import Feox.Props.C03W
 /-!
 # C02 (continued) — acknowledged data on the bytes
